@@ -1,6 +1,8 @@
 package props
 
 import (
+	"golang.org/x/tools/go/ssa"
+
 	"verif/sa/internal/e7regex"
 	"verif/sa/internal/load"
 	"verif/sa/internal/oblig"
@@ -21,12 +23,21 @@ func runC18(r *oblig.Report) {
 	r.Assumptions = []string{"regexp/syntax parses and compiles patterns the way regexp.MatchString does (same package the runtime uses)",
 		"invalid UTF-8 bytes are read by the regexp package as U+FFFD, which is a member of the alphabet",
 		"automaton construction in /verif/sa/internal/e7regex, validated on every run by fixtures run through the automaton (never through repository code)"}
-	p, err := load.LoadPatterns(false, "./validation")
+	p, err := load.LoadPatterns(true, "./validation")
 	if err != nil {
 		r.Unknown("load", "load:validation", "-", err.Error())
 		return
 	}
 	e7regex.Run(p, r)
+	// a verdict is a function of the string: no memo or cache shared between calls and validators
+	var vfs []*ssa.Function
+	for _, m := range p.SSAPkg["validation"].Members {
+		if f, ok := m.(*ssa.Function); ok {
+			vfs = append(vfs, f)
+			vfs = append(vfs, f.AnonFuncs...)
+		}
+	}
+	noPackageState(p, r, vfs)
 	r.Extra["checker_cmd"] = "/verif/bin/verif check C18 --tier " + r.Tier
 	r.Extra["trusted_base"] = []string{"go/types constant folding", "regexp/syntax (Parse, Simplify, Compile, Inst.MatchRune)", "/verif/sa/internal/e7regex automaton construction (self-tested each run)"}
 }
